@@ -90,7 +90,9 @@ func (pass *FlattenDisjunctions) flattenDisjunction(schema *ast.Schema, disjunct
 
 		resolved, found := schema.Resolve(branch)
 		if !found {
-			// FIXME: error here?
+			// the reference can't be resolved from the current schema (it
+			// likely points to another package): leave the branch untouched.
+			addBranch(typeName, branch)
 			continue
 		}
 
